@@ -89,14 +89,30 @@ class WorkLock:
         self.fd.close()
 
 
-def _limit_memory():
-    # no swap on this image: a runaway CBMC must fail (-> UNDECIDED), not take the box down
-    import resource
-    lim = int(os.environ.get("VERIF_MEM_GB", "24")) * 1024 ** 3
+def _watchdog(proc, stop, limit_kb):
+    """No swap on this image: a runaway CBMC must fail (-> UNDECIDED for its
+    harness), not take the box down. RLIMIT_AS cannot be used: it also hits
+    kani-driver itself (and counts address space, not memory). Kills any
+    `cbmc` in the session of `proc` whose resident set exceeds the limit."""
+    import time as _t
     try:
-        resource.setrlimit(resource.RLIMIT_AS, (lim, lim))
+        sid = os.getsid(proc.pid)
     except Exception:
-        pass
+        return
+    while not stop.is_set():
+        try:
+            out = subprocess.run(["ps", "-eo", "pid,sid,rss,comm"], stdout=subprocess.PIPE,
+                                 text=True).stdout
+            for line in out.splitlines()[1:]:
+                f = line.split()
+                if len(f) >= 4 and f[3].startswith("cbmc") and int(f[1]) == sid and int(f[2]) > limit_kb:
+                    try:
+                        os.kill(int(f[0]), 9)
+                    except Exception:
+                        pass
+        except Exception:
+            pass
+        stop.wait(3)
 
 
 def run(cmd, cwd=None, env=None, timeout=None, log=None, limit_mem=False):
@@ -104,15 +120,30 @@ def run(cmd, cwd=None, env=None, timeout=None, log=None, limit_mem=False):
     e.update(ENV_OFFLINE)
     if env:
         e.update(env)
+    import threading
     try:
-        p = subprocess.run(cmd, cwd=cwd, env=e, timeout=timeout,
-                           stdout=subprocess.PIPE, stderr=subprocess.STDOUT, text=True,
-                           errors="replace", preexec_fn=_limit_memory if limit_mem else None)
-        out, rc = p.stdout, p.returncode
-    except subprocess.TimeoutExpired as ex:
-        out = (ex.stdout or b"").decode("utf8", "replace") if isinstance(ex.stdout, bytes) else (ex.stdout or "")
-        out += "\n[runner] TIMEOUT after %ss\n" % timeout
-        rc = 124
+        proc = subprocess.Popen(cmd, cwd=cwd, env=e, stdout=subprocess.PIPE, stderr=subprocess.STDOUT,
+                                text=True, errors="replace", start_new_session=limit_mem)
+        stop = threading.Event()
+        if limit_mem:
+            lim = int(os.environ.get("VERIF_MEM_GB", "20")) * 1024 * 1024
+            th = threading.Thread(target=_watchdog, args=(proc, stop, lim), daemon=True)
+            th.start()
+        try:
+            out, _ = proc.communicate(timeout=timeout)
+            rc = proc.returncode
+        except subprocess.TimeoutExpired:
+            try:
+                os.killpg(os.getpgid(proc.pid), 9) if limit_mem else proc.kill()
+            except Exception:
+                proc.kill()
+            out, _ = proc.communicate()
+            out = (out or "") + "\n[runner] TIMEOUT after %ss\n" % timeout
+            rc = 124
+        finally:
+            stop.set()
+    except FileNotFoundError as ex:
+        out, rc = str(ex), 127
     if log:
         with open(log, "w") as f:
             f.write(out)
